@@ -83,6 +83,22 @@ fn main() {
                 println!("{:6} {}", v, k);
             }
         }
+        Some("residue") => {
+            // debugging aid: which scenarios leave something on disk?
+            let prop = args.get(2).cloned().unwrap_or_else(|| "C14".into());
+            let l = lanes_for(&prop, "quick", seed());
+            let mut n = 0;
+            for sc in l.iter().filter(|s| s.tier == Tier::Lib) {
+                let obs = run_scenario(sc);
+                if obs.fs_after.iter().any(|(_, e)| !e.is_empty()) {
+                    n += 1;
+                    if n <= 8 {
+                        println!("{}: {:?}", sc.lane, obs.fs_after);
+                    }
+                }
+            }
+            println!("{} scenarios with residue", n);
+        }
         Some("show") => {
             let pat = args.get(2).cloned().unwrap_or_else(|| usage());
             let prop = args.get(3).cloned().unwrap_or_else(|| "C05".into());
